@@ -192,4 +192,75 @@ theorem fetchEnd_of_endOk {sv : Server} {v : Path} (h : endOk sv v = true) : ∃
       | none => simp [hf] at h
       | some i => exact ⟨_, rfl⟩
 
+theorem findNs_mapInsts (r : Repo) (F : NsStore → List Inst) (n : Name) :
+    findNs (mapInsts r F) n = (findNs r n).map (fun S => { S with insts := F S }) := by
+  unfold findNs mapInsts
+  rw [List.find?_map]
+  rfl
+
+theorem findInst_isSome_iff {is : List Inst} {v : Path} :
+    (findInst is v).isSome = true ↔ ∃ i ∈ is, i.path.eqv v = true := by
+  unfold findInst
+  rw [List.find?_isSome]
+
+/-- an end stays fetchable when the instance it names is kept by a store-by-store transformation -/
+theorem endOk_mapInsts {sv : Server} {F : NsStore → List Inst} {v : Path}
+    (hkeep : ∀ T ∈ sv.repo, ∀ i ∈ T.insts, i.path.eqv v = true → ∃ i' ∈ F T, i'.path.eqv v = true)
+    (h : endOk sv v = true) : endOk { sv with repo := mapInsts sv.repo F } v = true := by
+  unfold endOk at h ⊢
+  cases hh : v.host with
+  | some _ => simp [hh] at h
+  | none =>
+    simp only [hh, Option.isNone_none, Bool.true_and] at h ⊢
+    cases hn : v.ns with
+    | none => simp [hn] at h
+    | some n =>
+      simp only [hn] at h ⊢
+      rw [findNs_mapInsts]
+      cases hT : findNs sv.repo n with
+      | none => simp [hT] at h
+      | some T =>
+        simp only [hT] at h
+        simp only [Option.map_some]
+        obtain ⟨i, hi, he⟩ := findInst_isSome_iff.mp h
+        exact findInst_isSome_iff.mpr (hkeep T (findNs_mem hT).1 i hi he)
+
+theorem createAssoc_ends_ok {sv sv' : Server} {ns : Name} {a : Inst} (h : createAssoc sv ns a = .ok sv') :
+    ∀ v ∈ ends a, endOk sv v = true := by
+  unfold createAssoc at h
+  cases hS : findNs sv.repo ns with
+  | none => simp [hS] at h
+  | some S =>
+    simp only [hS] at h
+    split at h
+    · cases h
+    · split at h
+      · cases h
+      · rename_i hhost
+        split at h
+        · cases h
+        · rename_i hends
+          intro v hv
+          have h1 : v.host.isSome = false := by
+            cases hc : v.host.isSome with
+            | false => rfl
+            | true => exfalso; apply hhost; simp only [List.any_eq_true]; exact ⟨v, hv, hc⟩
+          unfold endOk
+          cases hn : v.ns with
+          | none => exfalso; apply hends; simp only [List.any_eq_true]; exact ⟨v, hv, by simp [hn]⟩
+          | some n =>
+            cases hT : findNs sv.repo n with
+            | none => exfalso; apply hends; simp only [List.any_eq_true]; exact ⟨v, hv, by simp [hn, hT]⟩
+            | some T =>
+              cases hf : (findInst T.insts v).isSome with
+              | false => exfalso; apply hends; simp only [List.any_eq_true]
+                         exact ⟨v, hv, by simp [hn, hT]; simpa using hf⟩
+              | true =>
+                have : v.host.isNone = true := by cases hh : v.host <;> simp_all
+                simp only [this, hT, hf, Bool.and_self]
+
+theorem endOk_congr_repo {sv1 sv2 : Server} (h : sv1.repo = sv2.repo) (v : Path) : endOk sv1 v = endOk sv2 v := by
+  unfold endOk; rw [h]
+
+
 end C13
